@@ -1,5 +1,7 @@
 ---------------------------- MODULE AppRunTrace ----------------------------
-(* Recorded runs of real applications checked against AppRun.  Every trace is one event:
+(* Recorded runs of real applications checked against AppRun.  A trace is one event, or two: two runs one after the
+   other whose I/Os share one formatter object (whatever the first report leaves on the formatter's style stack is
+   there when the second one is written); each run is decided on its own.  Event:
      env   the environment (as in AppRun)
      msgs  [pre, l1, l2, l3, handler : [known, lines]]  the message of the exception each source raises in this run
            (known = FALSE: that source raises nothing, or its exception has no printable message)
